@@ -72,6 +72,18 @@ const NEST: &[(&str, &str, &str)] = &[
     ("g-attr", "<g class=\"k\" fill=\"red\">", "</g>"),
     ("if", "<if test=\"1\">", "</if>"),
     ("loop", "<loop count=\"1\">", "</loop>"),
+    // containers svgdx has no special handling for, and content of other vocabularies
+    ("foreignObject", "<foreignObject>", "</foreignObject>"),
+    ("metadata", "<metadata>", "</metadata>"),
+    ("switch", "<switch>", "</switch>"),
+    ("defs", "<defs>", "</defs>"),
+    ("symbol", "<symbol>", "</symbol>"),
+    ("marker", "<marker>", "</marker>"),
+    ("mask", "<mask>", "</mask>"),
+    ("pattern", "<pattern>", "</pattern>"),
+    ("div", "<div>", "</div>"),
+    ("p", "<p>", "</p>"),
+    ("unknown", "<frob q=\"1\">", "</frob>"),
 ];
 
 fn flat_item(kind: &str, i: u64) -> String {
@@ -362,7 +374,7 @@ impl Engine for C17 {
                     let (cfg, prefix) = limit_cfg(&mut w, "var", l, via_config);
                     let kind = *w.pick(&[
                         "literal", "concat", "copy", "in-group", "fwd", "copy-of-g-attr", "copy-of-reuse-attr", "copy-of-for-var", "braced-copy",
-                        "reuse-attr",
+                        "reuse-attr", "reuse-attr-overrides-leaf-attr", "reuse-attr-overrides-group-default",
                     ]);
                     // templates are evaluated once at definition time with their parameters
                     // still unexpanded ("$label"): keep the limit above such placeholders
@@ -405,6 +417,12 @@ impl Engine for C17 {
                             "<specs><g id=\"tv\"><var v=\"$label\"/><text xy=\"0 0\" text=\"$v\"/></g></specs><reuse href=\"#tv\" label=\"{val}\"/>"
                         ),
                         "copy-of-for-var" => format!("<for data=\"'{val}'\" var=\"x\"><var v=\"${{x}}\"/><text xy=\"0 0\" text=\"$v\"/></for>"),
+                        // the attribute also exists on the target: it overrides the target's own
+                        // value AND is a variable of the instance like any other reuse attribute
+                        "reuse-attr-overrides-leaf-attr" => format!("<specs><text id=\"tv\" xy=\"0 0\" text=\"n/a\"/></specs><reuse href=\"#tv\" text=\"{val}\"/>"),
+                        "reuse-attr-overrides-group-default" => format!(
+                            "<specs><g id=\"tv\" label=\"n/a\"><text xy=\"0 0\" text=\"$label\"/></g></specs><reuse href=\"#tv\" label=\"{val}\"/>"
+                        ),
                         "braced-copy" => format!("<g label=\"{val}\"><var v=\"${{label}}\"/><text xy=\"0 0\" text=\"$v\"/></g>"),
                         _ => format!("<specs><g id=\"tv\"><text xy=\"0 0\" text=\"$label\"/></g></specs><reuse href=\"#tv\" label=\"{val}\"/>"),
                     };
